@@ -5,9 +5,14 @@
    answer: nil / non-nil, the ID, and the tags as a multiset (Go builds them in map order).
    When several indexable pods share the looked-up IP (outside C13's hypothesis) Go's ByIndex
    picks one in map order: the answer must then be the instance of one of them, and the model
-   continues with that one memoised. *)
+   continues with that one memoised.
+   Stream async: the history is a schedule of the finer labels of Model/K8sAsync.v (index update,
+   handler call, the lock scopes of a lookup) realised on the real Provider through the
+   AfterByIndex hook.  [areplay] requires every label to be enabled in the model (a lookup the
+   implementation served from the memo must be a hit in the model and vice versa) and every
+   returned answer to be the model's - stale ones included: agreement, not a violation. *)
 From stdpp Require Import gmap.
-From GS Require Export Base.Bytes Base.CorrLib Model.K8s.
+From GS Require Export Base.Bytes Base.CorrLib Model.K8s Model.K8sAsync.
 
 Definition retable := list (str * option (str * list (str * str))).
 
@@ -17,7 +22,19 @@ Inductive ev :=
 | EDelete (p : pod)
 | ELookup (ip : str) (ans : option (str * list str)).
 
-Record k8scase := KC { kc_label_re : option retable; kc_annot_re : option retable; kc_evs : list ev }.
+Definition answer := option (str * list str).
+
+Inductive aev :=
+| AIndexUpdate (d : delivery)
+| AHandlerCall
+| AReadMemo (t : N) (ip : str)
+| AReturnHit (t : N) (ans : answer)
+| AReadIndex (t : N)
+| AWriteMemo (t : N) (ans : answer).
+
+Record k8scase := KC { kc_label_re : option retable; kc_annot_re : option retable;
+                       kc_evs : list ev;       (* streams unique / shared / offcontract *)
+                       kc_aevs : list aev }.   (* stream async *)
 
 Definition re_of (t : retable) : regex :=
   MkRe (fun k => match assoc_str k t with Some r => r | None => None end).
@@ -78,8 +95,73 @@ Fixpoint replay (cfg : config) (s : state) (evs : list ev) : bool :=
       end
   end.
 
+(* ---- stream async *)
+Definition dcovered (c : k8scase) (d : delivery) : bool :=
+  match d with
+  | DAdd p | DDelete p => pod_covered c p
+  | DUpdate o n => pod_covered c o && pod_covered c n
+  end.
+Definition aev_covered (c : k8scase) (e : aev) : bool :=
+  match e with AIndexUpdate d => dcovered c d | _ => true end.
+
+Definition alabel_of (e : aev) : alabel :=
+  match e with
+  | AIndexUpdate d => IndexUpdate d
+  | AHandlerCall => HandlerCall
+  | AReadMemo t ip => LookupReadMemo t ip
+  | AReturnHit t _ => LookupReturnHit t
+  | AReadIndex t => LookupReadIndex t
+  | AWriteMemo t _ => LookupWriteMemo t
+  end.
+
+(* the answer the model returns when lookup t finishes in state s *)
+Definition returns (s : astate) (t : N) : option (option instance) :=
+  match a_pending s !! t with
+  | Some (PHit _ i) => Some (Some i)
+  | Some (PComputed _ r) => Some r
+  | _ => None
+  end.
+
+(* an index read that Go may resolve either way (several indexable pods on the IP): the async
+   generator never produces it; if it happens the rest of the case is not judged *)
+Definition ambiguous_read (s : astate) (e : aev) : bool :=
+  match e with
+  | AReadIndex t =>
+      match a_pending s !! t with
+      | Some (PMiss ip) => match candidates (a_store s) ip with _ :: _ :: _ => true | _ => false end
+      | _ => false
+      end
+  | _ => false
+  end.
+
+Fixpoint areplay (cfg : config) (s : astate) (evs : list aev) : bool :=
+  match evs with
+  | [] => true
+  | e :: r =>
+      if ambiguous_read s e then true else
+      match astep cfg s (alabel_of e) with
+      | None => false
+      | Some s' =>
+          match e with
+          | AReturnHit t ans | AWriteMemo t ans =>
+              match returns s t with Some m => ans_matches ans m | None => false end
+          | _ => true
+          end && areplay cfg s' r
+      end
+  end.
+
+Fixpoint aanswers (cfg : config) (s : astate) (evs : list aev) : list (str * option instance) :=
+  match evs with
+  | [] => map (fun o => (snd (fst o), snd o)) (a_out s)
+  | e :: r => match astep cfg s (alabel_of e) with
+              | Some s' => aanswers cfg s' r
+              | None => map (fun o => (snd (fst o), snd o)) (a_out s) ++ [([], None)]  (* label not enabled *)
+              end
+  end.
+
 Definition check_case (c : k8scase) : bool :=
-  forallb (ev_covered c) (kc_evs c) && replay (cfg_of c) init (kc_evs c).
+  forallb (ev_covered c) (kc_evs c) && replay (cfg_of c) init (kc_evs c) &&
+  forallb (aev_covered c) (kc_aevs c) && areplay (cfg_of c) ainit (kc_aevs c).
 
 (* for a failing case: whether the tables were complete, and the model's answer to every lookup
    of the history (deterministic run: first candidate) *)
@@ -93,4 +175,8 @@ Fixpoint answers (cfg : config) (s : state) (evs : list ev) : list (str * option
   end.
 
 Definition explain_case (c : k8scase) : bool * list (str * option instance) :=
-  (forallb (ev_covered c) (kc_evs c), answers (cfg_of c) init (kc_evs c)).
+  (forallb (ev_covered c) (kc_evs c) && forallb (aev_covered c) (kc_aevs c),
+   match kc_aevs c with
+   | [] => answers (cfg_of c) init (kc_evs c)
+   | aevs => aanswers (cfg_of c) ainit aevs
+   end).
